@@ -190,9 +190,20 @@ func hasSig(res *sim.Result, sig string) *sim.Violation {
 // shrink minimises a failing tape while the same signature persists.
 func shrink(t *testing.T, sc *Scenario, tier string, tape []uint32, sig string, budget int, fault *sim.FaultSpec) ([]uint32, int) {
 	execs := 0
+	memLimit := (envU("VERIF_MEM_MB", 1500) + 1500) << 20
 	try := func(cand []uint32) ([]uint32, bool) {
 		if execs >= budget {
 			return nil, false
+		}
+		// every execution leaves its abandoned goroutines (and what they reference) behind: stop
+		// minimising before the process outgrows the machine - the tape found so far is kept
+		if execs%8 == 7 {
+			var ms runtime.MemStats
+			runtime.ReadMemStats(&ms)
+			if ms.HeapAlloc > memLimit {
+				budget = execs
+				return nil, false
+			}
 		}
 		execs++
 		res, _ := runOnceF(t, sc, sim.ReplayTape(cand), tier, false, fault, false)
